@@ -70,10 +70,59 @@ def run(chk):
     res, s, pd = explore(chk)
     finish(chk, res, s, pd, {"transparency", "panic"})
     thorough = chk.tier == "thorough"
+    recorded(chk, 60 if thorough else 10, {"transparency", "panic"})
     for sw, inv in [("D_CacheKeyNoMethod", "MCTransparent"), ("D_CacheKeyFirstSegment", "MCFilledAfterDynamic")]:
         r = core.run_tlc("MC_RouterCache", cfg_text=ccfg(["overlap"], ["FF"], [1, 2], emit=False,
                                                          invs=[], props=[inv], **{sw: True}), extra_files=[pd], timeout=600)
         chk.expect_fails(r, "MC_RouterCache[%s]" % sw, inv)
+
+
+def recorded(chk, n, only):
+    """O3: random tables / options / capacities 0..5, 100-200 requests each, validated step by step by TLC"""
+    tr = os.path.join(core.scratch(), "rcache-trace.ndjson")
+    s = core.run_harness(["rcacherec", "record", tr, n], env={"VERIF_SEED": chk.seed})
+    chk.absorb(s, "rcacherec", only=only)
+    hdr = core.trace_line(tr, 1)
+    os.makedirs(os.path.join(core.scratch(), "tracepool"), exist_ok=True)
+    pd = os.path.join(core.scratch(), "tracepool", "PoolDef.tla")
+    open(pd, "w").write(P.pooldef(hdr["pool"], extra_paths=[tuple(p) for p in hdr["paths"]]))
+    const = dict(DEV)
+    const.pop("D_EvictFront")
+    const.update(MaxLen=1, MaxTable=1, MethodSets=core.SetOfSets([["GET"]]), ReqMethods={"GET"}, Caps={0})
+    c = core.cfg(init="TraceInit", next="TraceNext", constants=const, invariants=["CacheBounded"], postcondition="Post")
+    res = core.run_tlc("TraceRouterCache", cfg_text=c, workers=1, timeout=1800, env={"TRACE": tr}, extra_files=[pd], expect_fail=True)
+    verdict = [o for o in res.lines if isinstance(o, dict) and "verdict" in o]
+    if not verdict or res.violated is not None:
+        raise core.Inconclusive("TraceRouterCache did not finish: %s\n%s" % (res.error_text, res.raw_tail[-1500:]))
+    v = verdict[-1]
+    if v.get("specbad"):
+        raise core.Inconclusive("spec-defect: TransparentA/FilledAfterDynamicA fail in the specification on recorded line %d: %s" % (
+            v["specbad"], core.trace_line(tr, v["specbad"])))
+    chk.add_tlc(res, "trace validation: %d recorded request histories, %d events" % (s["cases"], s["info"]["events"]))
+    chk.traces += s["cases"]
+    chk.extra["recorded"] = dict(histories=s["cases"], events=s["info"]["events"])
+    chk.sample(dict(recorded_event=core.trace_line(tr, 12)))
+    if v["verdict"] != "ACCEPT":
+        bad = v.get("line") or v.get("diameter")
+        ev = core.trace_line(tr, bad)
+        table = []
+        with open(tr) as f:
+            for i, ln in enumerate(f, 1):
+                o = json.loads(ln)
+                if o["op"] == "reset":
+                    table = [dict(hmna=o["hmna"], hfb=o["hfb"], cap=o["cap"])]
+                elif o["op"] == "reg":
+                    table.append(",".join(o["ms"]) + " " + o["text"])
+                if i >= bad:
+                    break
+        aspect = "cache-content" if v.get("keysonly") == bad else "transparency"
+        if aspect not in only:
+            chk.extra["mismatches_of_other_properties"] = chk.extra.get("mismatches_of_other_properties", 0) + 1
+            return
+        chk.violation(dict(kind="rcache-trace", aspect=aspect, line=bad, table=table, event=ev,
+                           what="recorded request is not a step of RuxRouterCache: %s %s on %s resolved to %s, cache keys %s" % (
+                               ev.get("m"), ev.get("p"), table, {k: ev.get(k) for k in ("kind", "r", "allow")}, ev.get("keys"))),
+                      dict(family="rcacherec", seed=chk.seed, n=n, line=bad))
 
 
 def replay(doc):
